@@ -53,9 +53,9 @@ def cases(tier):
                     yield {'fam': fam, 'par': par, 'dim': dim, 'index': index, 'given': given}
 
 
-def make(case):
+def make(case, idx_type=int):
     import scikit_tt.data_driven.transform as tdt
-    fam, par, idx = case['fam'], case['par'], case['index']
+    fam, par, idx = case['fam'], case['par'], idx_type(case['index'])
     dim = case['dim'] if case['given'] else None
     if fam == 'Constant':
         return tdt.ConstantFunction(idx, dimension=dim)
@@ -204,6 +204,22 @@ def run_case(case, seed):
                         H = np.asarray(f.hessian(pt), dtype=float); Hw = np.asarray(f.hessian(pf), dtype=float)
                         r.true(key + ':int-point:hessian', H.shape == Hw.shape and np.allclose(H, Hw, rtol=1e-13, atol=1e-13))
                     r.true(key + ':int-point:value', abs(float(f(pt)) - float(f(pf))) <= 1e-13 * max(1, abs(float(f(pf)))))
+    # coordinates and the index given as NumPy integers (np.arange, argmax, integer arrays) or as a distinct int object
+    if not no_d1:
+        with r.op(key + ':numpy-int-direction:call'):
+            for npt in (np.int64, np.int32):
+                fn_ = make(dict(case, given=True), npt)          # the object's own index is a NumPy integer
+                for k in range(dim):
+                    want = f.partial(p0, k)
+                    r.true(key + ':numpy-int-direction:partial', f.partial(p0, npt(k)) == want and fn_.partial(p0, k) == want and fn_.partial(p0, npt(k)) == want,
+                           'direction %d as %s: %r / %r / %r vs %r' % (k, npt.__name__, f.partial(p0, npt(k)), fn_.partial(p0, k), fn_.partial(p0, npt(k)), want))
+                    if not no_d2:
+                        for l in range(dim):
+                            want2 = f.partial2(p0, k, l)
+                            r.true(key + ':numpy-int-direction:partial2', f.partial2(p0, npt(k), npt(l)) == want2 and fn_.partial2(p0, k, npt(l)) == want2,
+                                   'directions %d,%d as %s' % (k, l, npt.__name__))
+                r.true(key + ':numpy-int-direction:gradient', np.array_equal(np.asarray(fn_.gradient(p0)), np.asarray(f.gradient(p0))))
+                r.true(key + ':numpy-int-direction:value', fn_(p0) == f(p0))
     # array evaluation of the derivatives where they are array-valued
     if not no_d1:
         with r.op(key + ':partial:array-call'):
